@@ -553,7 +553,11 @@ def rule_context_owner(rep):
         "a tree node's context (the source of its positions and layout) is assigned once: by "
         "Node.__init__ or by the Parent that is created with it; obj copies the context's span",
     ) as r:
-        repo = rep.repo
+        rule_context_owner_checks(r, rep.repo, full=True)
+
+
+def rule_context_owner_checks(r, repo, full=False):
+    if True:
         allowed = {
             ("parglare.trees.Node.__init__", "self.context = context"),
             ("parglare.glr.Parent.__init__", "p.context = self"),
@@ -577,6 +581,8 @@ def rule_context_owner(rep):
                                 node=st,
                             )
         r.floor("context assignment sites", n, 2)
+        if not full:
+            return
         # node construction receives the right context
         f = repo.func("parglare.parser.Parser._call_shift_action")
         r.check(f"NodeTerm({f.params[1]}, token)" in unparse(f.node) or f"NodeTerm({f.params[1]}, {f.params[1]}.token)" in unparse(f.node),
